@@ -42,6 +42,7 @@ type PathRecord struct {
 	Entry     string      `json:"entry"`
 	Cfg       int         `json:"cfg"`
 	Tier      int         `json:"tier"`
+	Prop      string      `json:"prop,omitempty"` // property the run belongs to: assertions of other properties are skipped
 	Nondet    []NondetVal `json:"nondet"`
 	Decisions []int64     `json:"decisions,omitempty"`
 	// expectations (filled by the engine, compared with the native run)
@@ -452,7 +453,7 @@ func (e *Explorer) concretize(t *Term) uint64 {
 }
 
 func (e *Explorer) record(outcome, panicMsg string) *PathRecord {
-	rec := &PathRecord{Entry: e.job.Entry, Cfg: e.job.Cfg, Tier: e.job.Tier, Outcome: outcome, PanicMsg: panicMsg, FailLabel: e.failed}
+	rec := &PathRecord{Entry: e.job.Entry, Cfg: e.job.Cfg, Tier: e.job.Tier, Prop: e.job.Prop, Outcome: outcome, PanicMsg: panicMsg, FailLabel: e.failed}
 	if e.failed == "C12/no-data-race" {
 		rec.Note = e.raceNote
 	}
